@@ -18,7 +18,7 @@ for b in ben:
     brow.append(f"| {b} | {re.sub(chr(10), ' ', str(m.get('summary','')))[:260].replace('|','/')} | {', '.join(m.get('files', []))[:120]} |")
 text = f"""## 11. Seeded changes and which checks catch them
 
-{len(rows)} property-breaking changes (twenty per property - nineteen for C19 -, written in ten rounds, plus one each for C07, C14 and C17 in a short eleventh round) and {len(ben)} behaviour-preserving refactors were produced by
+{len(rows)} property-breaking changes (twenty per property - nineteen for C19 -, written in ten rounds, plus one each for C07, C10, C11, C14 and C17 in a short eleventh round) and {len(ben)} behaviour-preserving refactors were produced by
 fresh sub-agents that saw only the text of one property (or, for the refactors, a list of files) and a scratch worktree of /repo -
 nothing from /verif. Each property-breaking change was confirmed by me in a scratch worktree (`tools/confirm_mut.sh`: the patch applies,
 the 179 tests pass with it, its demonstration fails with it and passes without it) and then run against the registered quick check of
@@ -29,9 +29,9 @@ shape-gated tolerance features, exception handling, check ordering); round 5 was
 consists of and asked for changes it is LEAST likely to notice (each explains the blind spot it aims at in `meta.json`); round 6 was a second
 red-team round whose sub-agents were additionally given every earlier idea and the strengthening it had led to; round 7 a third one, whose
 sub-agents were also told about the source-derived dictionary, the size ladder, the process environments and the state observers; rounds 8, 9 and 10 were a fourth, a
-fifth and a sixth one, each told everything the harness had by then. Round 11 (three sub-agents, after the round-11 theorems were added to C07 / C14 / C17) went back to the
-plain protocol: property text and a worktree only, plus a list of ideas already used; all three changes (a counter rule waived for backed-up credentials reporting 0, a
-trailing-digit padding convention in the decoder that eats a data character, a process-wide high-water mark of the clock in the SafetyNet window) were reported with a failing
+fifth and a sixth one, each told everything the harness had by then. Round 11 (five sub-agents, after the round-11 theorems were added to C07 / C14 / C17) went back to the
+plain protocol: property text and a worktree only, plus a list of ideas already used; all five changes (a counter rule waived for backed-up credentials reporting 0, a
+trailing-digit padding convention in the decoder that eats a data character, a process-wide high-water mark of the clock in the SafetyNet window, backup flags no longer read for fido-u2f registrations, an empty extension map reported as absent) were reported with a failing
 input by the quick check at the first run, without any strengthening.
 
 **Result.** (Numbers for /repo ec6c9f4.) {len(rows) - 4} of the {len(rows)} changes are reported with a concrete failing input by the quick check of the property they break; four are
